@@ -91,9 +91,22 @@ def run(R, env):
     TABLE = [((True, False, None), "bank"), ((False, True, None), "ibc"), ((True, True, False), "bank"), ((True, True, True), "ibc"), ((False, False, None), "none")]
     flagf = lambda t: shared.msg_field(t, "LiquidStake", "transfer_to_native_chain")
     flagv = lambda t: t[0] == "payload" and flagf(t[1])
+    # the same three facts in their other spellings: `matches!(validate_address(..), Ok(_))` (the Ok-ness of the call
+    # itself) and `flag == Some(true)`
+    vres = lambda t, pfx: t[0] == "call" and shared._body_of_call(prog, t) is not None and len(t[2]) == 2 and shared.recipient_term(prog, t[2][0]) and loaded_field(prog, t[2][1], "config", [pfx, "account_address_prefix"], CRATE)
+    isPc = lambda t: vres(t, "protocol_chain_config")
+    isNc = lambda t: vres(t, "native_chain_config")
+
+    def flag_eq_true(t):
+        if t[0] == "call" and t[1] in EQ and len(t[2]) == 2:
+            for x_, y_ in ((t[2][0], t[2][1]), (t[2][1], t[2][0])):
+                if flagf(x_) and y_[0] == "agg" and y_[2] == "Some" and y_[3] and y_[3][0][2][:3] == ("const", "bool", True):
+                    return EQ[t[1]]
+        return None
     WORLDS = []
     for (p_, n_, f_), want in TABLE:
-        base = h.assume_bool(isP, p_).assume_bool(isN, n_)
+        fv_ = bool(f_)
+        base = h.assume_bool(isP, p_).assume_bool(isN, n_).assume_ok(isPc, p_).assume_ok(isNc, n_).assume((None, lambda t, fv_=fv_: (None if flag_eq_true(t) is None else (fv_ == flag_eq_true(t)))))
         if f_ is None:
             WORLDS.append(((p_, n_, f_), want, base))
         elif f_:
